@@ -10,7 +10,7 @@ from hypothesis import strategies as st
 
 from vlib.runner import norm_message
 
-from cutplace import checks, interface, sql
+from cutplace import checks, fields, interface, ranges, sql
 
 PROPERTY_ID = "C19"
 RULE = (
@@ -341,6 +341,12 @@ def check_case(sub, case, sample=True):
     _check_built_by_program(sub, case, cid, table, dialect, dialect_name, columns)
 
 
+class _OwnRangeIntegerFieldFormat(fields.IntegerFieldFormat):
+    def __init__(self, field_name, is_allowed_to_be_empty, length, rule, data_format):
+        super().__init__(field_name, is_allowed_to_be_empty, length, "", data_format)
+        self.valid_range = ranges.Range(rule)
+
+
 def _check_built_by_program(sub, case, cid, table, dialect, dialect_name, columns):
     """The same fields put together by program (Cid.add_field_format with field formats built through their
     constructors, text-like ones with a value of their own to stand in for an empty cell): column names, quoting,
@@ -356,7 +362,12 @@ def _check_built_by_program(sub, case, cid, table, dialect, dialect_name, column
                          built.data_format]
             if type(field).__name__ in ("TextFieldFormat", "PatternFieldFormat"):
                 arguments.append(["n/a", "", "?", None][number % 4])
-            built.add_field_format(type(field)(*arguments))
+            field_class = type(field)
+            if (field_class is fields.IntegerFieldFormat and declared["rule"].strip() and not declared["length"].strip()
+                    and case["format"] != "Fixed" and number % 2 == 0):
+                # a field format of the application's own that sets its range itself, after the base class is done
+                field_class = _OwnRangeIntegerFieldFormat
+            built.add_field_format(field_class(*arguments))
         for row in case.get("checks", []):
             check_class = {"IsUnique": checks.IsUniqueCheck, "DistinctCount": checks.DistinctCountCheck}[row[2]]
             built.add_check(check_class(row[1], row[3], built.field_names))
